@@ -294,6 +294,9 @@ def main(argv=None):
         '; '.join(reasons)))
     slow = sorted(results, key=lambda r: -r.get('wall_s', 0))[:5]
     if os.environ.get('VERIF_VERBOSE'):
+        for r in results:
+            if r.get('unknown') or any(c.get('case') is None for c in r.get('cex', [])):
+                print('inconclusive in task %s: unknown=%s undecided=%d' % (r['task'].get('name'), r.get('unknown'), sum(1 for c in r.get('cex', []) if c.get('case') is None)), file=sys.stderr)
         for r in slow:
             print('slow task %.1fs %s paths=%s' % (r.get('wall_s', 0), r['task'].get('name'), r.get('paths')), file=sys.stderr)
     for e in errors[:3]:
